@@ -533,6 +533,11 @@ class Exec:
                                  None if _is_none(hi) else self.ev(hi, st), st)
         if isinstance(sl, ast.Slice):
             if sl.step is not None:
+                h = getattr(self, 'reverse_slice_hook', None)
+                if h is not None and sl.lower is None and sl.upper is None and _const_int(self.ev(sl.step, st)) == -1:
+                    r = h(self, e, recv, st)          # seq[::-1]: the elements of a list / tuple, last first
+                    if r is not NotImplemented:
+                        return r
                 raise OutOfSubset('slice step')
             return self.do_slice(e, recv, None if sl.lower is None else self.ev(sl.lower, st),
                                  None if sl.upper is None else self.ev(sl.upper, st), st)
@@ -1007,6 +1012,11 @@ class Exec:
                 names.add(n.value.id)
         return names
 
+    def also_modified(self, stmts, st):
+        """names a loop body may change without assigning them syntactically (frame of abstract callees); hook: modified_hook(ex, stmts, st)"""
+        h = getattr(self, 'modified_hook', None)
+        return set(h(self, stmts, st)) if h is not None else set()
+
     def havoc_value(self, name, v):
         if isinstance(v, z3.ExprRef):
             return self.fv(name, v.sort())
@@ -1032,7 +1042,7 @@ class Exec:
         # 2. arbitrary iteration
         h = st.fork()
         h.trace.append(f'loop{ordn}:head')
-        for v in sorted(self.assigned(body)):
+        for v in sorted(self.assigned(body) | self.also_modified(body, h)):
             if v in h.env:
                 h.env[v] = self.havoc_value(v, h.env[v])
                 h.frozen.discard(v)
@@ -1090,7 +1100,7 @@ class Exec:
         for t in ast.walk(s.target):
             if isinstance(t, ast.Name):
                 targets.add(t.id)
-        for v in sorted(self.assigned(s.body) | targets):
+        for v in sorted(self.assigned(s.body) | targets | self.also_modified(s.body, h)):
             if v in h.env:
                 h.env[v] = self.havoc_value(v, h.env[v])
                 h.frozen.discard(v)
